@@ -34,6 +34,15 @@ def gen_cases(ck):
                 nb = r.choice([2, 3, 5]) if m == 2 else r.choice([1, 2])
                 cases.append(Case("mode %s %d %s %s %s" % (d, m, rb(r, 16).hex(), (iv + rb(r, 4)).hex(), rb(r, 16 * nb).hex()), "mode",
                                   "mode%d/%s/iv-trailing-ff=%d" % (m, d, nff)))
+            if m == 2:
+                # the counter passes through ..7F FF..FF -> ..80 00..00 and ..FE FF..FF -> ..FF 00..00 at every byte position (a
+                # counter kept in wider words carries INTO a word's top bit there), starting 0..2 steps before the boundary
+                for nff in range(0, 16):
+                    for pre in (0x7F, 0xFE, 0x00, 0x80):
+                        iv = bytearray(rb(r, 15 - nff) + bytes([pre]) + b"\xff" * nff)
+                        v = (int.from_bytes(iv, "big") - r.choice([0, 1, 2])) % (1 << 128)
+                        cases.append(Case("mode %s %d %s %s %s" % (d, m, rb(r, 16).hex(), (v.to_bytes(16, "big") + rb(r, 4)).hex(), rb(r, 16 * 5).hex()), "mode",
+                                          "mode%d/%s/counter-through-%02x-then-ff-run" % (m, d, pre)))
             for nb in list(range(0, 12)) + [r.randrange(12, 41) for _ in range(6 if big else 2)]:
                 cases.append(Case("mode %s %d %s %s %s" % (d, m, rb(r, 16).hex(), rb(r, 20).hex(), wv.hexs(rb(r, 16 * nb))), "mode",
                                   "mode%d/%s/blocks=%s" % (m, d, nb if nb < 3 else "3+"), nb > 0))
